@@ -20,7 +20,7 @@ pub fn def() -> PropDef {
         thorough_cases: 120_000_000,
         rule: "case = one conversion call: from_slice/TryFrom (Fr,Fq) and from_hash on byte strings of every length 0..=70 (all-zero, all-0xFF, p-1, p, p+1, 2^256-1, k*p and k*(r-1) +-1 near 2^512, uniform), interpret on 64 bytes, from_str on digit strings up to 160 chars and strings with one foreign character injected, to_big_endian into buffers of length 0..=70, set_bit for indices 0..=300; non-trivial = length != 32, or value >= p before reduction, or a rejected input, or a bit index that changes the value / crosses r; distinct by (operation, input)",
         required: crate::runner::req(&[
-            "bytes:high-part-near-p", "op:from_slice", "op:interpret", "op:from_hash", "op:from_str", "op:to_big_endian", "op:set_bit", "len:0", "len:1", "len:31", "len:32", "len:33",
+            "bytes:high-part-near-p", "bytes:wide-limb-pattern", "op:from_slice", "op:interpret", "op:from_hash", "op:from_str", "op:to_big_endian", "op:set_bit", "len:0", "len:1", "len:31", "len:32", "len:33",
             "len:64", "len:65", "len:70", "bytes:reduced", "str:rejected", "str:accepted", "set_bit:overflow-r", "set_bit:index>=256", "hash:reduced", "buf:wrong-size",
         ]),
         enumerate: Some(enumerate),
@@ -42,7 +42,34 @@ pub fn conv_bytes(s: &mut Src, len: usize, m: Md) -> (Vec<u8>, &'static str) {
         o[len - n..].copy_from_slice(&b[b.len() - n..]);
         o
     };
-    match s.weighted(&[2, 2, 4, 4, 3, 6, 4]) {
+    match s.weighted(&[2, 2, 4, 4, 3, 6, 4, 4]) {
+        7 => {
+            // wide limb patterns: the 512-bit analogue of the stored-limb classes - every 64-bit word of the input from
+            // {0, 1, 2^63, 2^64-1, uniform}, or a single power of two 2^i (+-1) with i up to 511
+            if s.bool() {
+                let mut v = BigUint::zero();
+                for _ in 0..8 {
+                    let w = match s.choose(6) {
+                        0 | 1 => 0u64,
+                        2 => 1,
+                        3 => 1u64 << 63,
+                        4 => u64::MAX,
+                        _ => s.u64(),
+                    };
+                    v = (v << 64) + BigUint::from(w);
+                }
+                (fit(&v, len), "wide-limb-pattern")
+            } else {
+                let i = s.choose16(512) as u32;
+                let b = BigUint::one() << i;
+                let v = match s.choose(3) {
+                    0 => b,
+                    1 => b + 1u32,
+                    _ => b - 1u32,
+                };
+                (fit(&v, len), "wide-limb-pattern")
+            }
+        }
         6 => {
             // a near-modulus value in the HIGH part followed by an arbitrary tail: (x << 8t) + tail, x in {m-1, m, m+1, ...}
             // (long division and Horner-style reducers pass through every prefix of the input)
@@ -419,7 +446,7 @@ fn enumerate(_t: crate::runner::Tier) -> Vec<Vec<u8>> {
     };
     let ch = |i: usize, n: usize| -> u8 { ((i * 256).div_ceil(n)) as u8 };
     let w_op = [8u32, 3, 4, 5, 2, 5];
-    let w_b = [2u32, 2, 4, 4, 3, 6, 4];
+    let w_b = [2u32, 2, 4, 4, 3, 6, 4, 4];
     // from_slice: field x len x {zero, ff, uniform}
     for field in 0..2u8 {
         for len in 0..=70usize {
